@@ -416,12 +416,51 @@ func MemoPurity(r *core.Run, rel string, memoFuncs []string, table string) {
 		// cache holder's: the first caller's configuration would be frozen
 		// into the cached value.
 		recvType := core.RecvName(fd)
+		// a failed computation is not cached when the store to the memo field
+		// follows an `if err != nil { return … }` in the same block
+		storeAfterErrCheck := false
+		ast.Inspect(fd.Body, func(n ast.Node) bool {
+			blk, ok := n.(*ast.BlockStmt)
+			if !ok {
+				return true
+			}
+			checked := false
+			for _, st := range blk.List {
+				if ifs, ok := st.(*ast.IfStmt); ok && len(ifs.Body.List) > 0 {
+					if be, ok := ifs.Cond.(*ast.BinaryExpr); ok && be.Op == token.NEQ && core.IsNilIdent(info, be.Y) && isErrorType(info.TypeOf(be.X)) {
+						if _, isRet := ifs.Body.List[len(ifs.Body.List)-1].(*ast.ReturnStmt); isRet {
+							checked = true
+						}
+					}
+				}
+				if as, ok := st.(*ast.AssignStmt); ok && checked {
+					for _, l := range as.Lhs {
+						if sel, ok := l.(*ast.SelectorExpr); ok {
+							if nt := core.NamedOf(info.TypeOf(sel.X)); nt != nil && nt.Obj().Name()+"."+sel.Sel.Name == memoField {
+								storeAfterErrCheck = true
+							}
+						}
+					}
+				}
+			}
+			return true
+		})
+		abortOnly := map[ast.Expr]bool{}
 		for _, f := range tree {
 			var conds []ast.Expr
 			ast.Inspect(f.Body, func(n ast.Node) bool {
 				switch x := n.(type) {
 				case *ast.IfStmt:
 					conds = append(conds, x.Cond)
+					// `if cond { return …, <non-nil error> }` without else: the branch only aborts
+					if x.Else == nil && len(x.Body.List) > 0 {
+						if ret, ok := x.Body.List[len(x.Body.List)-1].(*ast.ReturnStmt); ok && len(ret.Results) > 0 {
+							last := ret.Results[len(ret.Results)-1]
+							if isErrorType(info.TypeOf(last)) && !core.IsNilIdent(info, last) {
+								abortOnly[x.Cond] = true
+							}
+						}
+					}
 				case *ast.SwitchStmt:
 					if x.Tag != nil {
 						conds = append(conds, x.Tag)
@@ -449,7 +488,9 @@ func MemoPurity(r *core.Run, rel string, memoFuncs []string, table string) {
 						return true
 					}
 					o := r.Add("R-DET/N4", fmt.Sprintf("%s.%s | tree of %s branches on %s.%s", rel, core.FuncName(f), mf, recvType, s.Sel.Name), s.Pos(), "branch on "+recvType+"."+s.Sel.Name+" while computing a value cached on another object")
-					if !r.Table(table, o) {
+					if abortOnly[c] && storeAfterErrCheck {
+						o.Auto("the branch only aborts the computation with an error, and %s stores to %s only after its error check: nothing computed under this branch is cached", mf, memoField)
+					} else if !r.Table(table, o) {
 						o.Fail("the result is cached in %s and reused by later callers, but this branch depends on %s.%s of whichever %s computed it first: output depends on call order and on fresh vs reused sets", memoField, recvType, s.Sel.Name, recvType)
 					}
 					return true
